@@ -324,12 +324,17 @@ func checkBulkOps(p *Program, r *Report, prop string) {
 				}
 			}
 		}
+		checkUnrollFresh(p, r, at, tname, "R02.3")
 		// R02.4
 		checkReshapeErrors(p, r, at, tname)
 		// R02.5 + Reshape contiguous Impl
 		checkRestride(p, r, at, tname)
 	}
 	r.Floor("R02.4", "concrete array types", nT, 9)
+	r.Rule("R02.7", "row-major enumeration loops are complete: every loop advancing an index with Increment(idx, shape) counts from 0 to Product(shape) in steps of 1, increments on every iteration and starts from the zero index (Maximum, Minimum, ApplySlice, the whole-array helpers, both back-ends)")
+	r.Rule("R02.8", "reductions start from an element: the running value of Maximum/Minimum is initialised from an element of the view, never from a constant")
+	checkEnumerationLoops(p, r, cOnly)
+	checkReductionInit(p, r, cOnly)
 
 	// ---- R02.1(b,c): Unroll write-through sites
 	nSites := 0
@@ -831,4 +836,216 @@ func checkArgmax(p *Program, r *Report) {
 	} else {
 		r.OK("R02.6", "data.Argmax: every returned value is an index of the parameter itself")
 	}
+}
+
+// ---------- rules added after the second round of independent seeded changes ----------
+
+// checkUnrollFresh (R02.3b): every value Unroll returns is either a sub-slice of the receiver's storage under
+// Contiguous()==true or a slice allocated in the same activation — never a cached copy held in the view.
+func checkUnrollFresh(p *Program, r *Report, at *arrayType, tname string, rule string) {
+	un := at.own("Unroll")
+	if un == nil {
+		return
+	}
+	bad := ""
+	for _, ret := range returnsOf(un) {
+		for _, o := range origins(ret.Results[0]) {
+			if o == nil {
+				bad = "may return nil"
+				continue
+			}
+			switch x := o.(type) {
+			case *ssa.MakeSlice:
+				continue
+			case *ssa.Slice:
+				if isImplValue(x.X) {
+					continue
+				}
+				if _, ok := x.X.(*ssa.Alloc); ok {
+					continue
+				}
+				if _, ok := vecBaseDeep(x).(*ssa.MakeSlice); ok {
+					continue
+				}
+			case *ssa.Alloc:
+				continue
+			}
+			if isImplValue(o) {
+				continue
+			}
+			if n, _, ok := loadedField(o); ok {
+				bad = fmt.Sprintf("returns the contents of field %s, a copy kept in the view object: later writes through other views are not seen", n)
+				continue
+			}
+			bad = "returns a value that is neither storage nor a slice built in this call: " + o.String()
+		}
+	}
+	// the struct holds no element data besides Impl
+	st := at.named.Underlying().(*types.Struct)
+	for i := 0; i < st.NumFields(); i++ {
+		f := st.Field(i)
+		if f.Name() == "Impl" || f.Embedded() {
+			continue
+		}
+		if _, isSlice := f.Type().Underlying().(*types.Slice); isSlice {
+			bad = fmt.Sprintf("the view struct has a second element buffer (field %s): a view must hold nothing but strides and the shared storage", f.Name())
+		}
+	}
+	if bad != "" {
+		r.Fail(rule, tname+":Unroll:fresh-or-alias", p.Pos(un.Pos()), "Unroll "+bad)
+	} else {
+		r.OK(rule, tname+".Unroll: result is storage (contiguous) or gathered in this call; the view holds no second element buffer")
+	}
+}
+
+// checkEnumerationLoops (R02.7): every loop that advances an index vector with Increment(idx, shape) visits
+// all Product(shape) elements: counter from 0, step 1, bound Product(shape) of the same shape, Increment on
+// every iteration, idx starting at the zero index.
+func checkEnumerationLoops(p *Program, r *Report, cOnly bool) {
+	n := 0
+	for _, fn := range dataFuncs(p) {
+		inC := relPkg(fnPkg(fn).Path()) == "data/cdata"
+		if cOnly != inC {
+			continue
+		}
+		loops := findLoops(fn)
+		k := 0
+		for _, c := range callsIn(fn) {
+			f := c.Common().StaticCallee()
+			if f == nil || f.Name() != "Increment" {
+				continue
+			}
+			l := innermostLoop(loops, c.Block())
+			if l == nil {
+				continue
+			}
+			n++
+			k++
+			key := fmt.Sprintf("%s:enumeration#%d", FuncKey(fn), k)
+			bound, why := loopBound(l)
+			bad := ""
+			if bound == nil {
+				bad = "the element loop is not `for pos := 0; pos < size; pos++`: " + why
+			} else {
+				// bound = Product(shape) with the same shape as Increment's second argument
+				okB := false
+				for _, o := range origins(bound) {
+					if pc, ok := o.(*ssa.Call); ok && callName(pc.Common()) == "Product" {
+						if sameValue(pc.Common().Args[0], c.Common().Args[1]) {
+							okB = true
+						}
+					}
+				}
+				if !okB {
+					bad = "the loop bound is not Product(shape) of the shape the index is incremented over"
+				}
+			}
+			if bad == "" {
+				for _, pr := range l.Header.Preds {
+					if l.Blocks[pr] && !c.Block().Dominates(pr) {
+						bad = "Increment is skipped on some iterations"
+					}
+				}
+			}
+			if bad == "" {
+				// idx starts as NewIndex(0)
+				for _, o := range origins(c.Common().Args[0]) {
+					ic, ok := o.(*ssa.Call)
+					if !ok || callName(ic.Common()) != "NewIndex" {
+						bad = "the index vector does not start from NewIndex(0)"
+						continue
+					}
+					if z, ok := constInt(callArgs(ic.Common())[0]); !ok || z != 0 {
+						bad = "the index vector does not start at the zero index"
+					}
+				}
+			}
+			if bad != "" {
+				r.Fail("R02.7", key, p.Pos(c.Pos()), "row-major enumeration is incomplete: "+bad+" (some element of the view is never visited or visited twice)")
+			} else {
+				r.OK("R02.7", fmt.Sprintf("%s: visits Product(shape) elements from the zero index, one Increment per iteration", FuncKey(fn)))
+			}
+		}
+	}
+	floor := 30
+	if cOnly {
+		floor = 27
+	}
+	r.Floor("R02.7", "enumeration loops", n, floor)
+}
+
+// checkReductionInit (R02.8): Maximum/Minimum start their running value from an element of the view.
+func checkReductionInit(p *Program, r *Report, cOnly bool) {
+	n := 0
+	for _, fn := range dataFuncs(p) {
+		if fn.Name() != "Maximum" && fn.Name() != "Minimum" {
+			continue
+		}
+		inC := relPkg(fnPkg(fn).Path()) == "data/cdata"
+		if cOnly != inC {
+			continue
+		}
+		n++
+		key := FuncKey(fn) + ":initial-value"
+		bad := ""
+		isElem := func(v ssa.Value) bool {
+			switch x := v.(type) {
+			case *ssa.Call:
+				nm := callName(x.Common())
+				return nm == "Get" || nm == "Get1"
+			case *ssa.UnOp:
+				_, ok := x.X.(*ssa.IndexAddr)
+				return ok && x.Op == token.MUL
+			}
+			return false
+		}
+		for _, l := range findLoops(fn) {
+			h := l.Header
+			ind := loopInduction(l)
+			for _, ins := range h.Instrs {
+				phi, ok := ins.(*ssa.Phi)
+				if !ok {
+					break
+				}
+				if phi == ind || isInt(phi.Type()) && phi.Comment == "rangeindex" {
+					continue
+				}
+				// a running result: reaches a return
+				reaches := false
+				for _, ret := range returnsOf(fn) {
+					for _, o := range origins(ret.Results[0]) {
+						if o == nil {
+							continue
+						}
+						if phiWeb(phi)[o] {
+							reaches = true
+						}
+					}
+					if phiWeb(phi)[ret.Results[0]] {
+						reaches = true
+					}
+				}
+				if !reaches {
+					continue
+				}
+				for i, e := range phi.Edges {
+					if l.Blocks[h.Preds[i]] {
+						continue
+					}
+					for _, o := range origins(e) {
+						if o == nil || !isElem(o) {
+							bad = "the running value starts from a constant/zero value, not from an element of the view (wrong for all-negative or all-positive data)"
+						}
+					}
+				}
+			}
+		}
+		if bad != "" {
+			r.Fail("R02.8", key, p.Pos(fn.Pos()), fn.Name()+": "+bad)
+		} else {
+			r.OK("R02.8", FuncKey(fn)+": running value initialised from an element")
+		}
+	}
+	r.Floor("R02.8", "Maximum/Minimum implementations", n, 16)
+	_ = cOnly
 }
